@@ -37,7 +37,11 @@ RULE = ("structured generator: 2-8 users x 2-8 items (pre-declared; some without
         "(exactly tied similarities) and constant rows (zero norm after centring); explicit or implicit feedback; k in 1..4, min_nbrs in 1..3 "
         "(also > k), dyadic and non-dyadic thresholds (some equal to an attained cosine), save_nbrs none/1..3, two block sizes per case; item-kNN "
         "queries: a training user's row, custom histories with unknown items, empty history; user-kNN queries: known id, known id + history, "
-        "unknown id + history, unknown id alone; targets include unknown items.  non-trivial = at least one target whose neighbourhood is larger "
+        "unknown id + history, unknown id alone; targets include unknown items; call sequences: the same query object (history "
+        "held as writable float32 / float64 NumPy arrays, Python lists or Arrow-backed) scored again with other candidate lists, every call checked "
+        "and the history compared with what the caller supplied; in 2 of 5 cases both scorers first undergo a re-training (retrain=True, other "
+        "vocabularies) that raises at a generated point (unreadable interaction data, first/second normalisation, DataWarning escalated on constant "
+        "ratings, late conversion / similarity step) and are then scored against the data of the last successful training.  non-trivial = at least one target whose neighbourhood is larger "
         "than k and one that is unscored for too few neighbours, and at least 6 ratings; distinct = by hash of the case")
 
 TOL = "tol32"
@@ -48,6 +52,7 @@ TOLD = "(1 # 262144)"        # 2^-18: float32 dot products of up to 8 terms
 # generator
 # ---------------------------------------------------------------------------------------------
 
+HIST_KINDS = ["f32", "f32", "f64", "list", "arrow"]
 MIN_SIMS = [Fraction(1, 1024), Fraction(1, 8), Fraction(1, 4), Fraction(1, 2), Fraction(1e-6), Fraction(0.05), Fraction(0.3)]
 
 
@@ -128,7 +133,7 @@ def gen_case(rng, edge=False):
             hist = rand_hist()
         else:
             hist = []
-        iq.append({"hist": hist, "items": rand_items()})
+        iq.append({"hist": hist, "items": rand_items(), "hist_kind": rng.choice(HIST_KINDS), "same_as": None})
     uq = []
     for _ in range(rng.randint(2, 4)):
         kind = rng.weighted([("id", 4), ("id+hist", 2), ("id+own", 2), ("unknown+hist", 2), ("unknown", 1)])
@@ -138,15 +143,23 @@ def gen_case(rng, edge=False):
             hist = rand_hist()
         if kind == "id+own":
             hist = [[i, fjson(cells[(user, i)])] for i in range(ni) if (user, i) in cells]
-        uq.append({"user": user, "hist": hist, "items": rand_items()})
+        uq.append({"user": user, "hist": hist, "items": rand_items(), "hist_kind": rng.choice(HIST_KINDS), "same_as": None})
+    # call sequences: the SAME query object scored again, with another candidate list
+    for qs in (iq, uq):
+        for j in range(len(qs)):
+            for _ in range(rng.weighted([(0, 2), (1, 3), (2, 1)])):
+                qs.append({**qs[j], "items": rand_items(), "same_as": j})
+    # optionally a re-training that fails part-way before any scoring (the old model must survive intact)
+    modes = ["data", "unit", "late"] + (["warn", "center"] if feedback == "explicit" else [])
+    retrain = rng.choice(modes) if rng.chance(2, 5) and nu >= 3 and ni >= 3 else None
     # a threshold equal to an attained cosine now and then: handled by the band
     return {"nu": nu, "ni": ni, "ratings": ratings, "feedback": feedback, "k": k, "min_nbrs": min_nbrs,
             "min_sim": fjson(min_sim), "save_nbrs": save, "block_sizes": bs, "item_queries": iq, "user_queries": uq,
-            "style": style}
+            "retrain": retrain, "style": style}
 
 
 def gen_cases(rng, tier):
-    n = 400 if tier == "quick" else 2500
+    n = 320 if tier == "quick" else 2000
     return [gen_case(rng.fork(k), edge=(k % 3 == 2)) for k in range(n)]
 
 
@@ -214,6 +227,133 @@ def _ilist(items, ratings=None):
     return ItemList(item_ids=arr, rating=np.array([float(fparse(r)) for r in ratings], dtype=np.float32))
 
 
+def make_hist(q):
+    """the query's history in the generated container; returns (ItemList, caller-side array or None, original values)"""
+    ids = [iid(x) for x, _ in q["hist"]]
+    vals = [float(fparse(r)) for _, r in q["hist"]]
+    kind = q.get("hist_kind", "f32")
+    keep = None
+    if kind in ("f32", "f64"):
+        keep = np.array(vals, dtype=np.float32 if kind == "f32" else np.float64)
+        il = ItemList(item_ids=np.array(ids, dtype=np.int64), rating=keep)
+    elif kind == "list":
+        il = ItemList(item_ids=np.array(ids, dtype=np.int64), rating=list(vals)) if ids else ItemList(item_ids=np.array([], dtype=np.int64), rating=np.array([], dtype=np.float32))
+    else:
+        import pyarrow as pa
+        il = ItemList.from_arrow(pa.table({"item_id": pa.array(ids, pa.int64()), "rating": pa.array(vals, pa.float32())}))
+    return il, keep, (ids, vals)
+
+
+def hist_intact(il, keep, orig):
+    ids, vals = orig
+    try:
+        if not ids:
+            return len(il) == 0
+        ok = [int(x) for x in il.ids()] == ids and np.array_equal(np.asarray(il.field("rating", "numpy"), dtype=np.float64), np.array(vals, dtype=np.float64))
+        if keep is not None:
+            ok = ok and np.array_equal(keep.astype(np.float64), np.array(vals, dtype=np.float64))
+        return bool(ok)
+    except Exception:  # noqa: BLE001
+        return False
+
+
+class Boom(RuntimeError):
+    pass
+
+
+class FailingData:
+    """a dataset whose interaction data cannot be read (vocabularies and counts still can)"""
+
+    def __init__(self, ds):
+        self._ds = ds
+
+    def __getattr__(self, name):
+        if name in ("interaction_matrix", "interactions", "interaction_table"):
+            raise Boom("injected: interaction data unavailable")
+        return getattr(self._ds, name)
+
+
+def second_dataset(case, constant):
+    """data for the re-training: first user and first item gone (every number shifts), optionally constant ratings"""
+    rows = [r for r in case["ratings"] if r[0] != 0 and r[1] != 0] or [[1, 1, "3/1"]]
+    df = pd.DataFrame({"user_id": [uid(r[0]) for r in rows], "item_id": [iid(r[1]) for r in rows],
+                       "rating": [3.0 if constant else float(fparse(r[2])) for r in rows]})
+    dsb = DatasetBuilder()
+    dsb.add_entities("item", [iid(i) for i in range(1, case["ni"])])
+    dsb.add_entities("user", [uid(u) for u in range(1, case["nu"])])
+    dsb.add_interactions("rating", df, entities=["user", "item"], missing="error", default=True)
+    return dsb.build()
+
+
+def failing_retrain(scorer, which, case):
+    """re-train with retrain=True so that training raises at the generated point; True iff it raised"""
+    import warnings
+
+    import lenskit.knn.item as KI
+    import lenskit.knn.user as KU
+    from lenskit.diagnostics import DataWarning
+    from lenskit.training import TrainingOptions
+
+    mode = case["retrain"]
+    explicit = case["feedback"] == "explicit"
+    mod = KI if which == "item" else KU
+    data = second_dataset(case, constant=(mode == "warn"))
+    saved = {}
+    if mode == "data":
+        data = FailingData(data)
+    elif mode in ("center", "unit"):
+        nth = 2 if (mode == "unit" and explicit) else 1
+        orig, count = mod.normalize_sparse_rows, [0]
+
+        def nsr(*a, **k):
+            count[0] += 1
+            if count[0] == nth:
+                raise Boom(f"injected: normalisation call {nth}")
+            return orig(*a, **k)
+
+        saved["normalize_sparse_rows"] = orig
+        mod.normalize_sparse_rows = nsr
+    elif mode == "late":
+        if which == "item":
+            def boom(*a, **k):
+                raise Boom("injected: similarity computation")
+            scorer._compute_similarities = boom
+        else:
+            saved["torch_sparse_to_scipy"] = mod.torch_sparse_to_scipy
+
+            def boom(*a, **k):
+                raise Boom("injected: conversion of the rating matrix")
+            mod.torch_sparse_to_scipy = boom
+    raised = False
+    try:
+        with warnings.catch_warnings():
+            if mode == "warn":
+                warnings.simplefilter("error", DataWarning)
+            try:
+                scorer.train(data, TrainingOptions(retrain=True))
+            except (Boom, DataWarning):
+                raised = True
+    finally:
+        for k, v in saved.items():
+            setattr(mod, k, v)
+        if mode == "late" and which == "item":
+            del scorer._compute_similarities
+    return raised
+
+
+def snap_item(s):
+    m = s.sim_matrix_
+    return (m.indptr.tobytes(), m.indices.tobytes(), m.data.tobytes(), None if s.item_means_ is None else s.item_means_.tobytes(),
+            s.item_counts_.tobytes(), [int(x) for x in s.items_.ids()], [int(x) for x in s.users_.ids()])
+
+
+def snap_user(us):
+    r = us.user_ratings_
+    return (us.user_vectors_.to_dense().numpy().tobytes(), r.indptr.tobytes(), r.indices.tobytes(), r.data.tobytes(),
+            None if us.user_means_ is None else us.user_means_.numpy().tobytes(),
+            [int(x) for x in us.items_.ids()], [int(x) for x in us.users_.ids()])
+
+
 def _csr_rows(m, perm_rows, col_of):
     """rows of a scipy CSR matrix as [[col, value]...] in case numbering, columns ascending"""
     out = []
@@ -249,11 +389,26 @@ def run_impl(case):
     obs["sorted_indices"] = bool(all(list(np.diff(s.sim_matrix_.indices[s.sim_matrix_.indptr[r]:s.sim_matrix_.indptr[r + 1]]) > 0) == [True] * max(0, s.sim_matrix_.indptr[r + 1] - s.sim_matrix_.indptr[r] - 1) for r in range(ni)))
     obs["item_means"] = None if s.item_means_ is None else [_num(s.item_means_[n]) for n in inum]
     obs["item_counts"] = [int(s.item_counts_[n]) for n in inum]
-    iq = []
-    for q in case["item_queries"]:
-        hist = _ilist([x for x, _ in q["hist"]], [r for _, r in q["hist"]])
-        res = s(RecQuery(user_id=12345, user_items=hist), _ilist(q["items"]))
-        iq.append({"scores": _nums(res.scores()), "aligned": list(res.ids()) == [iid(x) for x in q["items"]]})
+    obs["retrain_raised"] = {}
+    obs["model_unchanged"] = {}
+    if case.get("retrain"):
+        before = snap_item(s)
+        obs["retrain_raised"]["item"] = failing_retrain(s, "item", case)
+        obs["model_unchanged"]["item"] = snap_item(s) == before
+    iq, objs = [], {}
+    for j, q in enumerate(case["item_queries"]):
+        base = j if q.get("same_as") is None else q["same_as"]
+        if base not in objs:
+            il, keep, orig = make_hist(q)
+            objs[base] = (RecQuery(user_id=12345, user_items=il), il, keep, orig)
+        try:
+            res = s(objs[base][0], _ilist(q["items"]))
+            iq.append({"scores": _nums(res.scores()), "aligned": list(res.ids()) == [iid(x) for x in q["items"]]})
+        except Exception as e:  # noqa: BLE001
+            iq.append({"scores": [None] * len(q["items"]), "aligned": True, "error": f"{type(e).__name__}: {e}"[:120]})
+    for j, o in enumerate(iq):
+        base = j if case["item_queries"][j].get("same_as") is None else case["item_queries"][j]["same_as"]
+        o["hist_intact"] = hist_intact(*objs[base][1:])
     obs["item_queries"] = iq
     # ---- user-kNN
     us = UserKNNScorer(**cfg)
@@ -272,10 +427,20 @@ def run_impl(case):
     obs["UR"] = rows
     obs["user_means"] = None if us.user_means_ is None else [_num(us.user_means_[un].item()) for un in unum]
     case_user = {n: u for u, n in enumerate(unum)}
-    uq = []
+    if case.get("retrain"):
+        before = snap_user(us)
+        obs["retrain_raised"]["user"] = failing_retrain(us, "user", case)
+        obs["model_unchanged"]["user"] = snap_user(us) == before
+    uq, uobjs = [], {}
     orig_mv = torch.mv
-    for q in case["user_queries"]:
-        hist = None if q["hist"] is None else _ilist([x for x, _ in q["hist"]], [r for _, r in q["hist"]])
+    for j, q in enumerate(case["user_queries"]):
+        base = j if q.get("same_as") is None else q["same_as"]
+        if base not in uobjs:
+            if q["hist"] is None:
+                uobjs[base] = (RecQuery(user_id=uid(q["user"]), user_items=None), None, None, None)
+            else:
+                il, keep, orig = make_hist(q)
+                uobjs[base] = (RecQuery(user_id=uid(q["user"]), user_items=il), il, keep, orig)
         cap = []
 
         def mv(m, v, _cap=cap):
@@ -284,17 +449,30 @@ def run_impl(case):
             return r
 
         torch.mv = mv
+        err = None
         try:
-            res = us(RecQuery(user_id=uid(q["user"]), user_items=hist), _ilist(q["items"]))
+            res = us(uobjs[base][0], _ilist(q["items"]))
+        except Exception as e:  # noqa: BLE001
+            err = f"{type(e).__name__}: {e}"[:120]
         finally:
             torch.mv = orig_mv
+        if err is not None:
+            uq.append({"scores": [None] * len(q["items"]), "aligned": True, "q": None, "sims": None, "error": err, "hist_intact": True})
+            continue
         o = {"scores": _nums(res.scores()), "aligned": list(res.ids()) == [iid(x) for x in q["items"]], "q": None, "sims": None}
         if cap:
             qv, sims = cap[0]
             qv, sims = qv.numpy(), sims.numpy()
-            o["q"] = [_num(qv[im]) for im in inum2]
-            o["sims"] = [_num(sims[un]) for un in unum]
+            if len(qv) == len(inum2) and len(sims) == len(unum):
+                o["q"] = [_num(qv[im]) for im in inum2]
+                o["sims"] = [_num(sims[un]) for un in unum]
+            else:
+                o["error"] = "neighbour search over a model of another shape"
         uq.append(o)
+    for j, o in enumerate(uq):
+        base = j if case["user_queries"][j].get("same_as") is None else case["user_queries"][j]["same_as"]
+        if "hist_intact" not in o:
+            o["hist_intact"] = True if uobjs[base][1] is None else hist_intact(*uobjs[base][1:])
     obs["user_queries"] = uq
     obs["thr32"] = _num(np.float32(min_sim))
     return obs
@@ -401,6 +579,10 @@ def coq_term(case, obs):
     explicit = case["feedback"] == "explicit"
     cells = {(u, i): r for u, i, r in case["ratings"]}
     if not obs["blocks_equal"] or not obs["sorted_indices"]:
+        return "false"
+    if case.get("retrain") and not (all(obs["retrain_raised"].values()) and all(obs["model_unchanged"].values())):
+        return "false"
+    if any(o.get("error") or not o["hist_intact"] for o in obs["item_queries"] + obs["user_queries"]):
         return "false"
     parts = []
     # (a) item similarity rows against the signed squared cosine of the data
@@ -559,8 +741,21 @@ def oracle(case, obs):
             want = sum(col) / len(col) if col else 0.0
             if abs(float(fparse(obs["item_means"][i])) - want) > EPS * 5:
                 out.append(("item-mean", f"item {i} mean {obs['item_means'][i]} != {want}"))
+    if case.get("retrain"):
+        for which in ("item", "user"):
+            if not obs["retrain_raised"].get(which, True):
+                out.append((f"retrain-did-not-fail:{which}", f"the re-training meant to fail at '{case['retrain']}' completed"))
+            elif not obs["model_unchanged"].get(which, True):
+                out.append((f"failed-retrain-changed-model:{which}",
+                            f"{which}-kNN: a re-training that raised at '{case['retrain']}' left a model that is not the one of the last successful training"))
     # item scores by the definition over the stored matrix
-    for q, qo in zip(case["item_queries"], obs["item_queries"]):
+    for j, (q, qo) in enumerate(zip(case["item_queries"], obs["item_queries"])):
+        nth = "repeat" if q.get("same_as") is not None else "first"
+        if qo.get("error"):
+            out.append(("item-score-error", f"scoring raised {qo['error']}"))
+            continue
+        if not qo["hist_intact"]:
+            out.append((f"query-history-mutated:item[{q.get('hist_kind')}]", "the query's history (ids / ratings) is no longer what the caller supplied after scoring"))
         if not qo["aligned"]:
             out.append(("item-score-alignment", "returned item ids differ from the requested ones"))
             continue
@@ -582,10 +777,15 @@ def oracle(case, obs):
                 ks, _ = find_selection(st, sim, case["k"], agg_fn(explicit, sim, val, off), None)
                 want = agg_fn(explicit, sim, val, off)(ks)
                 path = "slow" if len(st) > case["k"] else "fast"
-                out.append((f"item-score:{path}", f"target {t}: score {float(fparse(sc))} is not the aggregate over the {case['k']} most similar of {len(st)} neighbours ({float(want) if want is not None else None})"))
+                out.append((f"item-score:{path}:{nth}-call", f"target {t}: score {float(fparse(sc))} is not the aggregate over the {case['k']} most similar of {len(st)} neighbours ({float(want) if want is not None else None})"))
     # user side
     uvecs = [_vec(case, 0, u) for u in range(nu)]
     for q, qo in zip(case["user_queries"], obs["user_queries"]):
+        if qo.get("error"):
+            out.append(("user-score-error", f"scoring raised / went wrong: {qo['error']}"))
+            continue
+        if not qo["hist_intact"]:
+            out.append((f"query-history-mutated:user[{q.get('hist_kind')}]", "the query's history (ids / ratings) is no longer what the caller supplied after scoring"))
         if not qo["aligned"]:
             out.append(("user-score-alignment", "returned item ids differ from the requested ones"))
             continue
@@ -652,6 +852,10 @@ def nontrivial(case, obs):
 
 def counters(case, obs):
     yield "style=" + case["style"]
+    yield "retrain-failure=" + str(case.get("retrain"))
+    for q in case["item_queries"] + case["user_queries"]:
+        if q["hist"] is not None:
+            yield ("repeat-call[" if q.get("same_as") is not None else "first-call[") + q.get("hist_kind", "f32") + "]"
     yield "feedback=" + case["feedback"]
     yield f"k={case['k']}"
     yield f"min_nbrs={case['min_nbrs']}" + (">k" if case["min_nbrs"] > case["k"] else "")
@@ -706,9 +910,29 @@ def sample(case, obs):
                             "user_scores": [q["scores"] for q in obs["user_queries"]]}}
 
 
+_shrinks = [0]
+MAX_SHRINKS = 4          # per run: a broken build otherwise shrinks dozens of keys, each with many re-runs
+
+
+def _drop_queries(qs, keep_idx):
+    """sub-list of queries with `same_as` re-pointed (a repeat whose first call is dropped becomes a first call)"""
+    pos = {old: new for new, old in enumerate(keep_idx)}
+    out = []
+    for old in keep_idx:
+        q = dict(qs[old])
+        if q.get("same_as") is not None:
+            q["same_as"] = pos.get(q["same_as"])
+        out.append(q)
+    return out
+
+
 def shrink(case, fails):
+    _shrinks[0] += 1
+    if _shrinks[0] > MAX_SHRINKS:
+        return case
     c = dict(case)
-    c["item_queries"] = common.shrink_list(case["item_queries"], lambda xs: fails({**c, "item_queries": xs}), 12)
-    c["user_queries"] = common.shrink_list(c["user_queries"], lambda xs: fails({**c, "user_queries": xs}), 12)
+    for key in ("item_queries", "user_queries"):
+        idx = common.shrink_list(list(range(len(c[key]))), lambda xs: fails({**c, key: _drop_queries(case[key], xs)}), 12)
+        c[key] = _drop_queries(case[key], idx)
     c["ratings"] = common.shrink_list(case["ratings"], lambda xs: bool(xs) and fails({**c, "ratings": xs}), 40)
     return c
